@@ -72,7 +72,8 @@ class MyPyAstVisitor:
 
     def enter_moduledef(self, node: mp_nodes.MypyFile) -> None:
         self.mypy_file = node
-        is_package = node.path.endswith("__init__.py")
+        # Only the file "__init__.py" itself belongs to a package, a module like "my__init__.py" does not
+        is_package = node.path.replace("\\", "/").split("/")[-1] == "__init__.py"
 
         qualified_imports: list[QualifiedImport] = []
         wildcard_imports: list[WildcardImport] = []
